@@ -184,6 +184,9 @@ def oracle(impl, o):
         import torch
         from optree.integration import torch as otorch
         t_leaves = [torch.from_numpy(np.ascontiguousarray(a)) for a in np_leaves]
+        # non-contiguous tensors too: the same values behind permuted strides
+        t_leaves = [t.transpose(0, -1).contiguous().transpose(0, -1) if t.ndim >= 2 and not a.flags['C_CONTIGUOUS'] else t
+                    for t, a in zip(t_leaves, np_leaves)]
         backends.append(('torch', otorch.tree_ravel, t_leaves, lambda t: t.numpy(), lambda a: a.dtype,
                          torch.cat, lambda a, dt: a.to(dt)))
     except Exception:  # noqa: BLE001
